@@ -3,7 +3,7 @@ use typst_syntax::{ast::*, SyntaxKind, SyntaxNode};
 
 use crate::{
     ext::StrExt,
-    pretty::{doc_ext::DocExt, style::FoldStyle, ArenaDoc, Context, Mode, PrettyPrinter},
+    pretty::{doc_ext::DocExt, style::FoldStyle, ArenaDoc, Context, PrettyPrinter},
 };
 
 pub struct ListStylist<'a> {
